@@ -16,23 +16,23 @@ variable {α : Type}
 successful writes on a key — in commit order — form a chain: each was applied to the value left by
 the previous one (the first to the initial value) and the stored value at the end is what the last
 one left. -/
-theorem cas_chain_consul (cfg : Cfg α) (s0 : Sys α) (h0 : Quiescent s0) (hk : s0.pri.kind = .consul)
+theorem cas_chain_consul (cfg : Cfg α) (s0 : Sys α) (h0 : Quiescent s0) (_hk : s0.pri.kind = .consul)
     (evs : List (Ev α)) (k : Key) :
     Chain (s0.pri.val k) (successful k (run cfg s0 evs).log) ((run cfg s0 evs).pri.val k) :=
-  chain_chrono cfg s0 h0 evs (fun h _ => by rw [hk] at h; cases h) k
+  chain_chrono cfg s0 h0 evs k
 
 /-- **cas_chain (etcd)**. -/
-theorem cas_chain_etcd (cfg : Cfg α) (s0 : Sys α) (h0 : Quiescent s0) (hk : s0.pri.kind = .etcd)
+theorem cas_chain_etcd (cfg : Cfg α) (s0 : Sys α) (h0 : Quiescent s0) (_hk : s0.pri.kind = .etcd)
     (evs : List (Ev α)) (k : Key) :
     Chain (s0.pri.val k) (successful k (run cfg s0 evs).log) ((run cfg s0 evs).pri.val k) :=
-  chain_chrono cfg s0 h0 evs (fun h _ => by rw [hk] at h; cases h) k
+  chain_chrono cfg s0 h0 evs k
 
-/-- **no lost update** (consul, etcd), per write: in every interleaving, each successful write was applied
-to exactly the value that was stored at the moment of the write. -/
-theorem no_lost_update (cfg : Cfg α) (s0 : Sys α) (h0 : Quiescent s0) (hk : s0.pri.kind ≠ .ml)
+/-- **no lost update** (every backend), per write: in every interleaving, each successful write was
+applied to exactly the value that was stored at the moment of the write. -/
+theorem no_lost_update (cfg : Cfg α) (s0 : Sys α) (h0 : Quiescent s0)
     (evs : List (Ev α)) (r : Rec α) (hr : r ∈ (run cfg s0 evs).log) (hw : r.outcome = .wrote) :
     r.inp = r.before :=
-  wrote_input_current cfg s0 h0 evs (fun h _ => absurd h hk) r hr hw
+  wrote_input_current cfg s0 h0 evs r hr hw
 
 /-- What a successful call leaves (consul, etcd) is exactly the value its function returned, and
 the CAS call returns nil. -/
@@ -83,13 +83,13 @@ key mapping is injective, so distinct user keys never alias in the backend. -/
 theorem wrappers_refine_prefix (p k1 k2 : Key) (h : prefixKey p k1 = prefixKey p k2) : k1 = k2 :=
   prefixKey_inj p k1 k2 h
 
-/-- hence the chain property holds for every *user* key of a prefixed client (consul/etcd), counting
+/-- hence the chain property holds for every *user* key of a prefixed client (any backend), counting
 exactly the successful writes of calls made on that user key. -/
-theorem wrappers_refine_prefix_chain (cfg : Cfg α) (s0 : Sys α) (h0 : Quiescent s0) (hk : s0.pri.kind ≠ .ml)
+theorem wrappers_refine_prefix_chain (cfg : Cfg α) (s0 : Sys α) (h0 : Quiescent s0)
     (evs : List (Ev α)) (p uk : Key) :
     Chain (s0.pri.val (prefixKey p uk)) (successful (prefixKey p uk) (run cfg s0 evs).log)
       ((run cfg s0 evs).pri.val (prefixKey p uk)) :=
-  chain_chrono cfg s0 h0 evs (fun h _ => absurd h hk) _
+  chain_chrono cfg s0 h0 evs _
 
 /-- **wrappers_refine (multi, mirroring)**: the steps of the mirror write touch neither the primary
 store, nor the log of primary attempts, nor any other caller … -/
@@ -112,46 +112,16 @@ theorem wrappers_refine_mirror_copies (cfg : Cfg α) (s : Sys α) (c : Nat) (k :
 
 /-! ### memberlist
 
-The full statement `ml_cas_chain` (the chain property for every interleaving on the memberlist
-store) is FALSE of the current code: see `ml_first_write_not_atomic`. Proved instead:
+Since dskit commit "fix: memberlist KV CAS on a missing key is not atomic" `mergeValueForKey` tests
+`cas && curr.Version != casVersion`, so the first write of a key is conditional like every other
+write and the chain property holds without any guard. -/
 
--- theorem ml_cas_chain (cfg) (s0) (h0 : Quiescent s0) (hk : s0.pri.kind = .ml) (evs) (k) :
---   Chain (s0.pri.val k) (successful k (run cfg s0 evs).log) ((run cfg s0 evs).pri.val k)     -- false
--/
-
-/-- **ml_cas_chain_partial** (exact guard): the chain property holds for every interleaving in which
-no attempt that had read the key as absent (version 0) wrote onto a key that existed by then. This
-is the only way the chain can break: `mergeValueForKey` skips the version test when `casVersion == 0`. -/
-theorem ml_cas_chain_partial (cfg : Cfg α) (s0 : Sys α) (h0 : Quiescent s0) (_hk : s0.pri.kind = .ml)
-    (evs : List (Ev α))
-    (hg : ∀ r ∈ (run cfg s0 evs).log, r.outcome = .wrote → r.idx = 0 → r.before = none) (k : Key) :
-    Chain (s0.pri.val k) (successful k (run cfg s0 evs).log) ((run cfg s0 evs).pri.val k) :=
-  chain_chrono cfg s0 h0 evs (fun _ _ => hg) k
-
-/-- the guard of the design: histories in which the key exists (version > 0) at every read. -/
-theorem ml_cas_chain_partial_reads_present (cfg : Cfg α) (s0 : Sys α) (h0 : Quiescent s0) (hk : s0.pri.kind = .ml)
-    (evs : List (Ev α)) (hg : ∀ r ∈ (run cfg s0 evs).log, r.idx ≠ 0) (k : Key) :
-    Chain (s0.pri.val k) (successful k (run cfg s0 evs).log) ((run cfg s0 evs).pri.val k) :=
-  ml_cas_chain_partial cfg s0 h0 hk evs (fun r hr _ h0' => absurd h0' (hg r hr)) k
-
-/-- under the same guard every successful memberlist write was applied to the value stored at that
-moment, and for a function that only grows the value (`merge v (f v) = f v`) it leaves `f`'s output. -/
-theorem ml_no_lost_update_partial (cfg : Cfg α) (s0 : Sys α) (h0 : Quiescent s0) (hk : s0.pri.kind = .ml)
-    (evs : List (Ev α))
-    (hg : ∀ r ∈ (run cfg s0 evs).log, r.outcome = .wrote → r.idx = 0 → r.before = none)
-    (r : Rec α) (hr : r ∈ (run cfg s0 evs).log) (hw : r.outcome = .wrote) :
-    r.inp = r.before ∧ ∀ out, r.out = some out → cfg.merge r.inp out = some out → r.after = some out := by
-  have h1 := wrote_input_current cfg s0 h0 evs (fun _ _ => hg) r hr hw
-  obtain ⟨_, out, ho, ha, _⟩ := PfC07.ml_wrote_leaves_merge cfg s0 h0 hk evs r hr hw
-  refine ⟨h1, fun out' ho' hm => ?_⟩
-  rw [ho] at ho'; cases ho'; rw [ha, ← h1, hm]
-
-/-- **ml_cas_chain_fixed**: with the proposed repair (`cas && curr.Version != casVersion`, model flag
-`mlStrict`) the chain property holds on memberlist for every interleaving, first write included. -/
-theorem ml_cas_chain_fixed (cfg : Cfg α) (hfix : cfg.mlStrict = true) (s0 : Sys α) (h0 : Quiescent s0)
+/-- **ml_cas_chain**: on the memberlist store, for every interleaving (first write of a key included),
+the successful writes on a key form a chain from the initial to the final value. -/
+theorem ml_cas_chain (cfg : Cfg α) (s0 : Sys α) (h0 : Quiescent s0) (_hk : s0.pri.kind = .ml)
     (evs : List (Ev α)) (k : Key) :
     Chain (s0.pri.val k) (successful k (run cfg s0 evs).log) ((run cfg s0 evs).pri.val k) :=
-  chain_chrono cfg s0 h0 evs (fun _ hs => by rw [hfix] at hs; cases hs) k
+  chain_chrono cfg s0 h0 evs k
 
 /-- what a successful memberlist write leaves is the merge of `f`'s output into the value found. -/
 theorem ml_wrote_leaves_merge (cfg : Cfg α) (s0 : Sys α) (h0 : Quiescent s0) (hk : s0.pri.kind = .ml)
@@ -159,30 +129,45 @@ theorem ml_wrote_leaves_merge (cfg : Cfg α) (s0 : Sys α) (h0 : Quiescent s0) (
     r.done = some true ∧ ∃ out, r.out = some out ∧ r.after = cfg.merge r.before out ∧ r.after ≠ none :=
   PfC07.ml_wrote_leaves_merge cfg s0 h0 hk evs r hr hw
 
-/-! #### the first write is not atomic (D4): a 2-caller witness, checked by evaluation -/
+/-- **ml_no_lost_update**: every successful memberlist write was applied to the value stored at that
+moment, and for a function that only grows the value (`merge v (f v) = f v`) it leaves `f`'s output. -/
+theorem ml_no_lost_update (cfg : Cfg α) (s0 : Sys α) (h0 : Quiescent s0) (hk : s0.pri.kind = .ml)
+    (evs : List (Ev α)) (r : Rec α) (hr : r ∈ (run cfg s0 evs).log) (hw : r.outcome = .wrote) :
+    r.inp = r.before ∧ ∀ out, r.out = some out → cfg.merge r.inp out = some out → r.after = some out :=
+  PfC07.ml_no_lost_update cfg s0 h0 hk evs r hr hw
+
+/-! #### history: before the repair the first write was not atomic (finding D4)
+
+`condWriteMlOld` is the rule `casVersion > 0 && curr.Version != casVersion` the code had before the
+repair. It is NOT part of the model of the current code; the witness below only records why the rule
+was changed: two callers that both read the absent key (version 0, input `none`) both succeed, and
+the second write lands on the value the first one left — which the current rule rejects. -/
 
 def kx : Key := [107]
+def oldAfterFirst : Store Val := (condWriteMlOld Val.merge (Store.empty .ml) kx 0 (Val.app 100 none)).1
+
+theorem ml_first_write_not_atomic_history :
+    (condWriteMlOld Val.merge (Store.empty .ml) kx 0 (Val.app 100 none)).2 = .wrote ∧
+    oldAfterFirst.val kx = some ⟨0, [100]⟩ ∧
+    (condWriteMlOld Val.merge oldAfterFirst kx 0 (Val.app 200 none)).2 = .wrote ∧
+    (condWriteMlOld Val.merge oldAfterFirst kx 0 (Val.app 200 none)).1.val kx = some ⟨0, [100, 200]⟩ ∧
+    (condWrite Val.merge oldAfterFirst kx 0 (Val.app 200 none)).2 = .conflict := by
+  decide
+
+/-! #### the same race under the current rule -/
+
 def callApp (id : Nat) : Call Val := ⟨kx, fun _ inp => .write (Val.app id inp) true, false⟩
 def mlCfg : Cfg Val := { budget := 10, sbudget := 10, merge := Val.merge }
 def mlEmpty : Sys Val := Sys.init (Store.empty .ml) (Store.empty .consul)
-/-- both callers read the absent key, then both write. -/
-def mlRace : List (Ev Val) := [.begin 0 (callApp 100), .step 0, .begin 1 (callApp 200), .step 1, .step 0, .step 1]
+/-- both callers read the absent key, then both try to write; caller 1 re-reads and writes again. -/
+def mlRace : List (Ev Val) :=
+  [.begin 0 (callApp 100), .step 0, .begin 1 (callApp 200), .step 1, .step 0, .step 1, .step 1, .step 1]
 
-theorem ml_first_write_not_atomic :
-    (run mlCfg mlEmpty mlRace).log.map (fun r => (r.caller, r.inp, r.outcome, r.done, r.after)) =
-      [(1, none, .wrote, some true, some ⟨0, [100, 200]⟩), (0, none, .wrote, some true, some ⟨0, [100]⟩)] := by
-  decide
-
-
-/-- under the repair the same schedule makes the second caller conflict, re-read and write on top. -/
-example : (run { mlCfg with mlStrict := true } mlEmpty (mlRace ++ [.step 1, .step 1])).log.map
-      (fun r => (r.caller, r.inp, r.outcome, r.after)) =
+/-- the second caller conflicts, re-reads and writes on top of the first caller's value. -/
+example : (run mlCfg mlEmpty mlRace).log.map (fun r => (r.caller, r.inp, r.outcome, r.after)) =
     [(1, some ⟨0, [100]⟩, .wrote, some ⟨0, [100, 200]⟩), (1, none, .conflict, some ⟨0, [100]⟩),
      (0, none, .wrote, some ⟨0, [100]⟩)] := by decide
-
-/-- the guard of `ml_cas_chain_partial` fails exactly at the second write of the witness. -/
-example : ((run mlCfg mlEmpty mlRace).log.map (fun r => (r.idx, r.before))) =
-    [(0, some ⟨0, [100]⟩), (0, none)] := by decide
+example : Quiescent mlEmpty := quiescent_init _ _ (wf_empty _)
 
 /-! ### non-vacuity: concrete runs that meet the hypotheses and exercise conflicts -/
 
@@ -204,7 +189,7 @@ example : successful kx (run mlCfg (sys .consul) race).log = [(none, some ⟨1, 
   decide
 /-- the mirrored value reached the secondary. -/
 example : (run mlCfg (sys .consul) race).sec.val kx = some ⟨1, []⟩ := by decide
-/-- memberlist with the key present at every read: the guard holds and the run has a conflict. -/
+/-- memberlist with the key already present: a conflict, a re-read and a write on top. -/
 def mlPresent : Sys Val := Sys.init ((Store.empty .ml).set kx ⟨⟨0, [1]⟩, 1⟩) (Store.empty .consul)
 example : (run mlCfg mlPresent race).log.map (fun r => (r.caller, r.idx, r.outcome, r.after)) =
     [(1, 2, .wrote, some ⟨2, [1]⟩), (1, 1, .conflict, some ⟨1, [1]⟩), (0, 1, .wrote, some ⟨1, [1]⟩)] := by
